@@ -4,7 +4,9 @@
   A coordinate is `Option α` (`none` = +∞, the only non-finite value the routine knows about);
   `log` is a parameter.  The model rejects what the code rejects:
     * `keep_inf=True` without `val_inf`      → `Err.needValInf`   (code: `Exception`)
-    * some bar with length ≤ 0 (or not > 0)  → `Err.bornAfterDying` (code: `Exception`)
+    * some bar with length ≤ 0 (or not > 0)  → `Err.bornAfterDying` (code: `Exception`);
+      this includes a bar `[inf, e]` with finite death when `keep_inf=False`: the code filters on
+      the death column only, the bar stays and its length is `-inf`.
 -/
 namespace PersimVerif.Entropy
 
@@ -18,11 +20,19 @@ abbrev Dgm (α : Type) := List (Option α × Option α)
 section
 variable {α : Type} [Add α] [Sub α] [Mul α] [Div α] [Neg α] [Zero α] [LT α] [DecidableLT α]
 
-/-- Step 1 of the code: drop bars with infinite death (`keep_inf=False`) … -/
-def dropInf (d : Dgm α) : List (α × α) :=
-  d.filterMap fun p => match p.1, p.2 with
-    | some b, some e => some (b, e)
-    | _, _ => none
+/-- Step 1 of the code (`keep_inf=False`): `dgm[dgm[:, 1] != np.inf]` — the filter looks at the
+    **death only**.  A bar with an infinite *birth* and a finite death stays in. -/
+def dropInf (d : Dgm α) : List (Option α × α) :=
+  d.filterMap fun p => match p.2 with
+    | some e => some (p.1, e)
+    | none => none
+
+/-- The births of the bars that are left, if all of them are finite.  A remaining infinite birth
+    gives the length `e - inf = -inf`, which is not `> 0`: the code raises "born after dying". -/
+def finiteBirths : List (Option α × α) → Option (List (α × α))
+  | [] => some []
+  | (some b, e) :: t => (finiteBirths t).map ((b, e) :: ·)
+  | (none, _) :: _ => none
 
 /-- … or substitute `val_inf` for every infinite entry (`keep_inf=True`). -/
 def substInf (v : α) (d : Dgm α) : List (α × α) :=
@@ -44,6 +54,12 @@ def entropyOne (log : α → α) (natCast : Nat → α) (normalize : Bool) (d : 
     .ok (if normalize then E / log (natCast l.length) else E)
   else .error .bornAfterDying
 
+/-- Step 1 + 2 for one diagram when `keep_inf=False`. -/
+def entropyDrop (log : α → α) (natCast : Nat → α) (normalize : Bool) (d : Dgm α) : Except Err α :=
+  match finiteBirths (dropInf d) with
+  | some d' => entropyOne log natCast normalize d'
+  | none => .error .bornAfterDying
+
 /-- The whole routine on a list of diagrams (a single diagram is wrapped by the caller, as
     `isinstance(dgms, list) == False` does). -/
 def persistentEntropy (log : α → α) (natCast : Nat → α) (keepInf : Bool) (valInf : Option α)
@@ -52,7 +68,7 @@ def persistentEntropy (log : α → α) (natCast : Nat → α) (keepInf : Bool) 
     match valInf with
     | none => .error .needValInf
     | some v => (dgms.map (substInf v)).mapM (entropyOne log natCast normalize)
-  else (dgms.map dropInf).mapM (entropyOne log natCast normalize)
+  else dgms.mapM (entropyDrop log natCast normalize)
 
 end
 end PersimVerif.Entropy
